@@ -12,7 +12,11 @@
                               (CodeGenerator.__init__: self._post_processors, one LimitEmptyLines object per generator;
                               the LimitEmptyLines state record is the translated one, Generated/Gen_LinePP.v), its
                               configuration (language options + templates, an id) and the types of its namespace
-     tyobj         a pydsdl type object with the objects it refers to (the dependency closure as a tree); `resolve`
+     select        DSDLCodeGenerator.filter_type_to_template -> DSDLTemplateLoader.type_to_template: the breadth-first walk over
+                   the pydsdl class hierarchy with the loader's memo (Gen/Lookup.v `bfs`, the C16 model, imported); the memo is
+                   per generator object (go_memo) and survives from file to file and from generate_all to generate_all.  A
+                   DSDLCodeGenerator has ONE listing (user directory if given, else the package: FIND_FIRST).
+     tyobj         a pydsdl type object (with its pydsdl class) with the objects it refers to (the dependency closure as a tree); `resolve`
                    builds it from the namespace the generator was given, and fails unless the closure is inside it
      prog          what rendering one template can do: emit text chunks, ask the unique-name generator (any number of
                    times, adaptively), call a memoised pure function.  `render` maps (configuration, type object) to
@@ -32,7 +36,11 @@
 
    Executable definitions only (extracted by coq/extraction/ExtractC10.v); proofs are in GenStateThm*.v. *)
 From Verif Require Export GenStateDict LinePPInst Gen_Uniq.
+From Verif Require Import Lookup.
 Open Scope N_scope.
+
+Notation tmemo := Lookup.cache (only parsing).        (* DSDLTemplateLoader._type_to_template_lookup_cache of one walk *)
+Notation tlist := (list (list N * list N)) (only parsing).   (* listing of a loader: (stem, template path) *)
 
 (* ---------------- memoisation: functools.lru_cache(maxsize) / a plain dict memo ---------------- *)
 Definition ckey := (N * str)%type.            (* (id(self), arguments) *)
@@ -64,10 +72,11 @@ Definition lru_call (f : ckey -> str) (maxsize : option nat) (c : cache) (k : ck
 
 (* ---------------- type objects and the dependency closure ---------------- *)
 Notation tkey := (list N) (only parsing).                 (* full name + version *)
-Record decl := { d_body : str; d_deps : list tkey }.
+Record decl := { d_cls : N; d_body : str; d_deps : list tkey }.     (* d_cls: the pydsdl class of the object *)
 Definition universe := dict decl.                        (* the DSDL sources: what each definition says *)
 
-Inductive tyobj := TyObj (k : tkey) (body : str) (deps : list tyobj).
+Inductive tyobj := TyObj (k : tkey) (c : N) (body : str) (deps : list tyobj).
+Definition obj_cls (o : tyobj) : N := match o with TyObj _ c _ _ => c end.
 
 Fixpoint map_opt {A B : Type} (f : A -> option B) (l : list A) : option (list B) :=
   match l with
@@ -85,7 +94,7 @@ Fixpoint resolve (fuel : nat) (U : universe) (I : list tkey) (k : tkey) : option
         match dict_get U k with
         | Some d =>
             match map_opt (resolve f U I) (d_deps d) with
-            | Some os => Some (TyObj k (d_body d) os)
+            | Some os => Some (TyObj k (d_cls d) (d_body d) os)
             | None => None
             end
         | None => None
@@ -112,26 +121,31 @@ Definition pp_clean (p : pp) : bool :=
   match p with PTrim => true | PLimit s => (LimitEmptyLines_empty_line_count s =? 0)%Z end.
 Definition pps_clean (ps : list pp) : bool := forallb pp_clean ps.
 
-Record genobj := { go_cfg : N; go_pps : list pp; go_inputs : list tkey }.
+Record genobj := { go_cfg : N; go_tset : tlist; go_memo : tmemo; go_pps : list pp; go_inputs : list tkey }.
 Record pstate := { p_uniq : UniqueNameGenerator_state; p_cache : cache; p_gens : list genobj }.
 
 (* one generated file, as the check observes it *)
 Record entry := {
   e_cfg : N;              (* configuration (options + templates) of the generator that wrote it *)
+  e_tset : tlist;         (* that generator's template listing *)
   e_pps0 : list pp;       (* that generator's line processors as constructed *)
   e_key : tkey;
   e_obj : tyobj;
+  e_tmpl : option str;    (* the template selected for it *)
   e_clean : bool;         (* every LimitEmptyLines counter of the generator was 0 when the file was started *)
   e_text : str }.
 
 Inductive op :=
-| ONew (c : N) (pps : list pp) (I : list tkey)    (* DSDLCodeGenerator(namespace built from I, options/templates c) *)
+| ONew (c : N) (ts : tlist) (pps : list pp) (I : list tkey)   (* DSDLCodeGenerator(namespace built from I, options c, templates ts) *)
 | ORun (gid : nat) (order : list tkey)            (* generate_all() of generator gid, visiting the types in this order *)
 | OClear.                                        (* cache_clear() of every memo table *)
 
 Section Run.
   Variable U : universe.
-  Variable render : N -> tyobj -> prog.
+  Variable bases : N -> list N.           (* pydsdl class -> __bases__ without object *)
+  Variable cname : N -> str.              (* pydsdl class -> __name__ *)
+  Variable fuel : nat.                    (* bound of the lookup loop: more than the depth of the class forest *)
+  Variable render : N -> option str -> tyobj -> prog.    (* configuration, selected template, type object *)
   Variable cfun : ckey -> str.            (* the memoised pure methods *)
   Variable maxsize : option nat.
   Variable resets : bool.                 (* generate_code_resets_uniq *)
@@ -154,29 +168,34 @@ Section Run.
     | _ => write_builtin ps chunks        (* _generate_with_line_buffer *)
     end.
 
-  (* _generate_code for the type object o under configuration cf *)
-  Definition gen_file (cf : N) (u : UniqueNameGenerator_state) (c : cache) (ps : list pp) (o : tyobj)
-    : UniqueNameGenerator_state * cache * list pp * str :=
+  (* filter_type_to_template(T): type_to_template(type(T)) with the loader's memo *)
+  Definition select (ts : tlist) (memo : tmemo) (cl : N) : tmemo * option str :=
+    Lookup.bfs bases (tmap cname ts) fuel [cl] [] memo.
+
+  (* _generate_type + _generate_code for the type object o under configuration cf with template listing ts *)
+  Definition gen_file (cf : N) (ts : tlist) (memo : tmemo) (u : UniqueNameGenerator_state) (c : cache) (ps : list pp) (o : tyobj)
+    : tmemo * UniqueNameGenerator_state * cache * list pp * (option str * str) :=
+    let '(memo1, tmpl) := select ts memo (obj_cls o) in
     let u0 := if resets then UniqueNameGenerator_init else u in
-    let '(u1, c1, chunks) := run_prog cf (render cf o) u0 c in
+    let '(u1, c1, chunks) := run_prog cf (render cf tmpl o) u0 c in
     let ps0 := if lel_shared then ps else map pp_fresh ps in
     let '(ps1, text) := write_file ps0 chunks in
-    (u1, c1, ps1, text).
+    (memo1, u1, c1, ps1, (tmpl, text)).
 
   (* generate_all of one generator *)
-  Fixpoint run_types (cf : N) (I : list tkey) (u : UniqueNameGenerator_state) (c : cache) (ps : list pp)
-           (order : list tkey) : UniqueNameGenerator_state * cache * list pp * list entry :=
+  Fixpoint run_types (cf : N) (ts : tlist) (I : list tkey) (memo : tmemo) (u : UniqueNameGenerator_state) (c : cache)
+           (ps : list pp) (order : list tkey) : tmemo * UniqueNameGenerator_state * cache * list pp * list entry :=
     match order with
-    | [] => (u, c, ps, [])
+    | [] => (memo, u, c, ps, [])
     | k :: order' =>
         match resolve_in U I k with
-        | None => run_types cf I u c ps order'            (* not a type of this namespace *)
+        | None => run_types cf ts I memo u c ps order'            (* not a type of this namespace *)
         | Some o =>
-            let '(u1, c1, ps1, text) := gen_file cf u c ps o in
-            let '(u2, c2, ps2, es) := run_types cf I u1 c1 ps1 order' in
-            (u2, c2, ps2,
-             {| e_cfg := cf; e_pps0 := map pp_fresh ps; e_key := k; e_obj := o; e_clean := pps_clean ps;
-                e_text := text |} :: es)
+            let '(m1, u1, c1, ps1, res) := gen_file cf ts memo u c ps o in
+            let '(m2, u2, c2, ps2, es) := run_types cf ts I m1 u1 c1 ps1 order' in
+            (m2, u2, c2, ps2,
+             {| e_cfg := cf; e_tset := ts; e_pps0 := map pp_fresh ps; e_key := k; e_obj := o; e_tmpl := fst res;
+                e_clean := pps_clean ps; e_text := snd res |} :: es)
         end
     end.
 
@@ -189,17 +208,19 @@ Section Run.
 
   Definition op_step (s : pstate) (o : op) : pstate * list entry :=
     match o with
-    | ONew cf pps ins =>
+    | ONew cf ts pps ins =>
         ({| p_uniq := p_uniq s; p_cache := p_cache s;
-            p_gens := p_gens s ++ [{| go_cfg := cf; go_pps := pps; go_inputs := ins |}] |}, [])
+            p_gens := p_gens s ++ [{| go_cfg := cf; go_tset := ts; go_memo := []; go_pps := pps; go_inputs := ins |}] |}, [])
     | OClear => ({| p_uniq := p_uniq s; p_cache := []; p_gens := p_gens s |}, [])
     | ORun gid order =>
         match nth_error (p_gens s) gid with
         | None => (s, [])
         | Some g =>
-            let '(u1, c1, ps1, es) := run_types (go_cfg g) (go_inputs g) (p_uniq s) (p_cache s) (go_pps g) order in
+            let '(m1, u1, c1, ps1, es) :=
+              run_types (go_cfg g) (go_tset g) (go_inputs g) (go_memo g) (p_uniq s) (p_cache s) (go_pps g) order in
             ({| p_uniq := u1; p_cache := c1;
-                p_gens := set_nth gid {| go_cfg := go_cfg g; go_pps := ps1; go_inputs := go_inputs g |} (p_gens s) |},
+                p_gens := set_nth gid {| go_cfg := go_cfg g; go_tset := go_tset g; go_memo := m1; go_pps := ps1;
+                                         go_inputs := go_inputs g |} (p_gens s) |},
              es)
         end
     end.
@@ -220,12 +241,12 @@ Section Run.
   Definition log (h : list op) : list entry := snd (exec p_init h).
 
   (* the file of o when it is the first and only file a new interpreter writes, with newly constructed processors *)
-  Definition alone (cf : N) (pps0 : list pp) (o : tyobj) : str :=
-    snd (gen_file cf UniqueNameGenerator_init [] pps0 o).
+  Definition alone (cf : N) (ts : tlist) (pps0 : list pp) (o : tyobj) : option str * str :=
+    snd (gen_file cf ts [] UniqueNameGenerator_init [] pps0 o).
 
   (* the chunk stream of o's template in a new interpreter *)
-  Definition file_chunks (cf : N) (o : tyobj) : list str :=
-    snd (run_prog cf (render cf o) UniqueNameGenerator_init []).
+  Definition file_chunks (cf : N) (ts : tlist) (o : tyobj) : list str :=
+    snd (run_prog cf (render cf (snd (select ts [] (obj_cls o))) o) UniqueNameGenerator_init []).
 End Run.
 
 (* ---------------- predicates used in the statements ---------------- *)
@@ -275,24 +296,27 @@ Definition ends_solid (chunks : list str) : bool :=
    the side condition under which LimitEmptyLines cannot carry anything across a file boundary *)
 Section Solid.
   Variable U : universe.
-  Variable render : N -> tyobj -> prog.
+  Variable bases : N -> list N.
+  Variable cname : N -> str.
+  Variable fuel : nat.
+  Variable render : N -> option str -> tyobj -> prog.
   Variable cfun : ckey -> str.
 
-  Definition file_solid (cf : N) (I : list tkey) (k : tkey) : bool :=
+  Definition file_solid (cf : N) (ts : tlist) (I : list tkey) (k : tkey) : bool :=
     match resolve_in U I k with
     | None => true
-    | Some o => ends_solid (file_chunks render cfun None cf o)
+    | Some o => ends_solid (file_chunks bases cname fuel render cfun None cf ts o)
     end.
 
-  Fixpoint hist_solid (gens : list (N * list tkey)) (h : list op) : bool :=
+  Fixpoint hist_solid (gens : list (N * tlist * list tkey)) (h : list op) : bool :=
     match h with
     | [] => true
-    | ONew cf pps ins :: h' => pps_clean pps && hist_solid (gens ++ [(cf, ins)]) h'
+    | ONew cf ts pps ins :: h' => pps_clean pps && hist_solid (gens ++ [(cf, ts, ins)]) h'
     | OClear :: h' => hist_solid gens h'
     | ORun gid order :: h' =>
         match nth_error gens gid with
         | None => true
-        | Some (cf, ins) => forallb (file_solid cf ins) order
+        | Some (cf, ts, ins) => forallb (file_solid cf ts ins) order
         end && hist_solid gens h'
     end.
 End Solid.
@@ -313,27 +337,39 @@ Fixpoint prog_of_script (s : list item) : prog :=
 Fixpoint obj_sig (fuel : nat) (o : tyobj) : str :=
   match fuel, o with
   | O, _ => []
-  | S f, TyObj k b deps => k ++ [58] ++ b ++ [40] ++ concat (map (obj_sig f) deps) ++ [41]
+  | S f, TyObj k _ b deps => k ++ [58] ++ b ++ [40] ++ concat (map (obj_sig f) deps) ++ [41]
   end.
 
 Fixpoint obj_depth (o : tyobj) : nat :=
-  match o with TyObj _ _ deps => S (fold_right (fun d m => Nat.max (obj_depth d) m) O deps) end.
+  match o with TyObj _ _ _ deps => S (fold_right (fun d m => Nat.max (obj_depth d) m) O deps) end.
 
-Definition table_render (tab : list (ckey * list item)) (cf : N) (o : tyobj) : prog :=
+(* every user template of the correspondence run starts with a marker naming the template file: "<path>" *)
+Definition tmpl_marker (markers : bool) (tmpl : option str) : str :=
+  if markers then match tmpl with Some p => [60] ++ p ++ [62] | None => [60; 62] end else [].
+
+Definition table_render (markers : bool) (tab : list (ckey * list item)) (cf : N) (tmpl : option str) (o : tyobj) : prog :=
+  PEmit (tmpl_marker markers tmpl)
   match o with
-  | TyObj k _ _ =>
+  | TyObj k _ _ _ =>
       match find (fun e => ckey_eqb (fst e) (cf, k)) tab with
       | Some e => prog_of_script (snd e)
       | None => PEmit (obj_sig (obj_depth o) o) PDone
       end
   end.
 
+(* the pydsdl class forest as a table: (id, (name, bases)) *)
+Definition ctable := list (N * (str * list N)).
+Fixpoint ct_get (t : ctable) (c : N) : option (str * list N) :=
+  match t with [] => None | (c', v) :: t' => if c' =? c then Some v else ct_get t' c end.
+Definition ct_bases (t : ctable) (c : N) : list N := match ct_get t c with Some (_, b) => b | None => [] end.
+Definition ct_name (t : ctable) (c : N) : str := match ct_get t c with Some (n, _) => n | None => [] end.
+
 (* the memoised function used by table-driven runs: depends on the object it is bound to and on the argument *)
 Definition table_cfun (k : ckey) : str := snd k ++ [64] ++ dec_of_N (fst k).
 
-Definition exec_table (U : universe) (tab : list (ckey * list item)) (maxsize : option nat) (resets lel_shared : bool)
-           (h : list op) : list entry :=
-  log U (table_render tab) table_cfun maxsize resets lel_shared h.
+Definition exec_table (ct : ctable) (U : universe) (markers : bool) (tab : list (ckey * list item)) (maxsize : option nat)
+           (resets lel_shared : bool) (h : list op) : list entry :=
+  log U (ct_bases ct) (ct_name ct) (S (length ct)) (table_render markers tab) table_cfun maxsize resets lel_shared h.
 
-Definition solid_table (U : universe) (tab : list (ckey * list item)) (h : list op) : bool :=
-  hist_solid U (table_render tab) table_cfun [] h.
+Definition solid_table (ct : ctable) (U : universe) (markers : bool) (tab : list (ckey * list item)) (h : list op) : bool :=
+  hist_solid U (ct_bases ct) (ct_name ct) (S (length ct)) (table_render markers tab) table_cfun [] h.
